@@ -377,8 +377,8 @@ class HirFront:
             return ("unknown", str(c))
         if k == "If":
             return ("if", self.cond(n["cond"]), self.term(n["then"]), self.term(n["else"]) if n.get("else") else ("ok",))
-        if k == "Ret":
-            return self.term(n["e"])
+        if k == "Ret" or (k == "Break" and n.get("inl_ret") and n.get("e") is not None):
+            return self.term(n["e"])   # `return e` (of an inlined helper as well): the value of the arm
         if k == "Block":
             stmts = [s for s in n.get("stmts", []) if s.get("k") != "Item"]
             if not stmts and n.get("expr") is not None:
@@ -409,6 +409,8 @@ class HirFront:
             if k == "Block" and not n.get("stmts") and n.get("expr") is not None:
                 n = n["expr"]
             elif k == "Ret" and n.get("e") is not None:
+                n = n["e"]
+            elif k == "Break" and n.get("inl_ret") and n.get("e") is not None:
                 n = n["e"]
             else:
                 break
